@@ -8,6 +8,7 @@ import (
 	"context"
 	"fmt"
 	"net/http"
+	"reflect"
 	"sort"
 	"sync"
 	"time"
@@ -116,12 +117,12 @@ type c16Sel struct {
 }
 
 type c16RuleSpec struct {
-	APIVersion string  `json:"apiVersion"`
-	Resource   string  `json:"resource"`
-	Kind       string  `json:"kind"`
-	Namespaced bool    `json:"namespaced"`
-	HasStatus  bool    `json:"hasStatus"`
-	Labels     *c16Sel `json:"labels"`      // nil = unset
+	APIVersion  string  `json:"apiVersion"`
+	Resource    string  `json:"resource"`
+	Kind        string  `json:"kind"`
+	Namespaced  bool    `json:"namespaced"`
+	HasStatus   bool    `json:"hasStatus"`
+	Labels      *c16Sel `json:"labels"`      // nil = unset
 	Annotations *c16Sel `json:"annotations"` // nil = unset
 }
 
@@ -250,6 +251,23 @@ type c16RoundRec struct {
 	Result        string // done | err | panic
 	Queue         []vh.QueueOp
 	PanicMsg      string
+	CacheMutated  string // C17 oracle: "" or which cached object the sync changed
+}
+
+// c16Held is one object held by a shared informer cache: the pointer the cache holds and a copy of its content
+type c16Held struct {
+	what string
+	ptr  *unstructured.Unstructured
+	copy map[string]interface{}
+}
+
+func c16HoldAll(role string, inf *dynamicinformer.ResourceInformer, held []c16Held) []c16Held {
+	for _, o := range inf.Informer().GetIndexer().List() {
+		if u, ok := o.(*unstructured.Unstructured); ok {
+			held = append(held, c16Held{what: role, ptr: u, copy: runtime.DeepCopyJSON(u.Object)})
+		}
+	}
+	return held
 }
 
 func c16ResKey(resource, apiVersion string) string { return resource + "." + apiVersion }
@@ -291,6 +309,14 @@ func (w *c16World) runSync(s *c16CtlSpec, b *c16Built, key string) *c16RoundRec 
 	for gvr, ci := range b.dc.childInformers {
 		c16InformerObjects(rec.CacheChildren, c16ResKey(gvr.Resource, gvr.GroupVersion().String()), ci)
 	}
+	// C17 oracle: nothing a sync does may change an object held in the shared caches
+	var held []c16Held
+	for _, pi := range b.dc.parentInformers {
+		held = c16HoldAll("target", pi, held)
+	}
+	for _, ci := range b.dc.childInformers {
+		held = c16HoldAll("attachment", ci, held)
+	}
 	w.srv.ResetLog()
 	c16HookTransport.ResetCalls()
 	b.queue.Reset()
@@ -313,6 +339,12 @@ func (w *c16World) runSync(s *c16CtlSpec, b *c16Built, key string) *c16RoundRec 
 		rec.PanicMsg = c16SyncErrors[0]
 	}
 	c16SyncErrorsMu.Unlock()
+	for _, h := range held {
+		if !reflect.DeepEqual(h.ptr.Object, h.copy) {
+			rec.CacheMutated = h.what
+			break
+		}
+	}
 	rec.Queue = b.queue.Snapshot()
 	if rec.Result != "panic" {
 		rec.Result = "done"
